@@ -266,7 +266,16 @@ class VariableSizedTiles:
         :raises: :py:class:`IndexError` when index is outside of ``[(0,0) -> .shape)``.
         """
         idx = iyx_(idx)
-        ny, nx = (int(a[i + 1]) - int(a[i]) for a, i in zip(self._offsets, idx.yx))
+
+        def _sz(a, i: int) -> int:
+            n = len(a) - 1
+            if i < 0:  # numpy style index from the right, like __getitem__
+                i += n
+            if not 0 <= i < n:
+                raise IndexError(f"Index {idx} is out of range")
+            return int(a[i + 1]) - int(a[i])
+
+        ny, nx = (_sz(a, i) for a, i in zip(self._offsets, idx.yx))
         return Shape2d(x=nx, y=ny)
 
     @property
